@@ -52,20 +52,17 @@ Theorem C25_check_order_independent : forall fk l1 l2 x,
 Proof. exact check_synced_perm. Qed.
 
 (* non-vacuity: a history with two flushes, a queued drop and crash points of every kind *)
-Definition C25_ex_fk : bytes := [255].
-Definition C25_ex_h : list hop :=
-  [HPut 1 [97] [1]; HPut 2 [98] [7]; HFlush [1] []; HPut 1 [97] [2]; HDrop 2; HFlush [2] []].
 Example C25_pool_example :
-  history_avoids C25_ex_fk C25_ex_h = true /\
-  map (fun k => check_synced C25_ex_fk (crash (rs_log (run_pool C25_ex_fk 1 C25_ex_h)) k)) (seq 0 13)
+  history_avoids C25Ex.fk C25Ex.h = true /\
+  map (fun k => check_synced C25Ex.fk (crash (rs_log (run_pool C25Ex.fk 1 C25Ex.h)) k)) (seq 0 13)
   = [COk None; COk None; CDirty; CDirty; CDirty; CDirty; CDirty; CDirty;
      COk (Some [0; 1]); COk (Some [0; 1]); CDirty; CDirty; COk (Some [0; 2])] /\
-  map r_pos (rs_recs (run_pool C25_ex_fk 1 C25_ex_h)) = [8%nat; 12%nat].
+  map r_pos (rs_recs (run_pool C25Ex.fk 1 C25Ex.h)) = [8%nat; 12%nat].
 Proof. vm_compute. repeat split. Qed.
 
 Example C25_flagged_example :
-  history_avoids C25_ex_fk C25_ex_h = true /\ flush_ids_change None C25_ex_h = true /\
-  map (fun k => check_synced C25_ex_fk (crash (fr_log (run_flagged C25_ex_fk C25_ex_h)) k)) (seq 0 13)
+  history_avoids C25Ex.fk C25Ex.h = true /\ flush_ids_change None C25Ex.h = true /\
+  map (fun k => check_synced C25Ex.fk (crash (fr_log (run_flagged C25Ex.fk C25Ex.h)) k)) (seq 0 13)
   = [COk None; COk None; CDirty; CDirty; CDirty; CDirty; CDirty; CDirty;
      COk (Some [0; 1]); CDirty; CDirty; CDirty; COk (Some [0; 2])].
 Proof. vm_compute. repeat split. Qed.
